@@ -94,6 +94,8 @@ def gen_plan(prop, base_seed, i, tier):
                 extra.append(_reverse(r) if rng.random() < 0.4 else r)
         for r in extra:
             rows.insert(rng.randint(0, len(rows)), r)
+    if prop == "C02":
+        common.maybe_pair(rng, rows, 0.2)
     thresholds = (0,) if prop == "C03" else (0, 0, 0, 0.5, 0.9, 1.0, round(rng.random(), 3))
     cfg = common.gen_config(rng, len(rows), thresholds)
     faulty = rng.random() < FAULTY[prop]
